@@ -50,6 +50,34 @@ pub fn dump(r: &Range<Data>) -> String {
             .collect::<Vec<_>>()
             .join(","),
     );
+    s.push_str("]D[");
+    // double-ended use of the two cell iterators: one item from the front, one from the back,
+    // alternately, until exhausted (coordinates must not depend on the order of consumption)
+    {
+        let mut out: Vec<String> = Vec::new();
+        let mut it = r.cells();
+        let mut front = true;
+        loop {
+            let x = if front { it.next() } else { it.next_back() };
+            match x {
+                Some((i, j, v)) => out.push(format!("{}:{}:{}", i, j, show(v))),
+                None => break,
+            }
+            front = !front;
+        }
+        out.push("|".to_string());
+        let mut it = r.used_cells();
+        let mut front = true;
+        loop {
+            let x = if front { it.next() } else { it.next_back() };
+            match x {
+                Some((i, j, v)) => out.push(format!("{}:{}:{}", i, j, show(v))),
+                None => break,
+            }
+            front = !front;
+        }
+        s.push_str(&out.join(","));
+    }
     s.push_str("]G[");
     // relative probes, one past each edge included
     let mut first = true;
